@@ -367,7 +367,7 @@ def probe_adapters(ctx, exe, ds, stats):
     precomputed ones on the asymmetric value tables (the answer must be the table entry for the pair as given), the
     eigen ones on the data (against hand-written loops when the data are dyadic, operator() against the named member)"""
     exact = ds["kind"] in ("dyadic", "lattice", "clusters")
-    r = ctx.run(exe, data_line(ds) + "ADAPT exact=%d\n" % (1 if exact else 0), timeout=60)
+    r = ctx.run(exe, data_line(ds) + "ADAPT exact=%d\n" % (1 if exact else 0), timeout=15)
     seen = {}
     for line in r.out.splitlines():
         w = line.split()
@@ -854,7 +854,7 @@ def evaluate(ctx, exe, mexe, needs, datasets, tier, rng, stats, samples):
             cases += cases_for(m, needs.get(m, ""), ds, params, tier, rng, reduced=bool(variant.get("reduced")))
         results = run_cases(ctx, exe, ds, cases)
         if any(r["kind"] == "NOTBUILT" for r in results):      # fallback build without the raw eigen family
-            keep = [i for i, r in enumerate(results) if not (r["kind"] == "NOTBUILT" and cases[i]["fam"] in ("E", "X"))]
+            keep = [i for i, r in enumerate(results) if not (r["kind"] == "NOTBUILT" and cases[i]["fam"] in ("E", "X", "O"))]
             cases, results = [cases[i] for i in keep], [results[i] for i in keep]
         model = run_model(ctx, mexe, [(c["m"], c["order"], model_entry(c)) for c in cases]) if mexe else None
         judge(ctx, ds, cases, results, needs, model, stats)
@@ -911,6 +911,15 @@ def _run(ctx, restore):
             try:
                 box["exe"] = ctx.cpp("harness/c13.cpp", name="c13_noraw", sanitize=False, extra=["-O0"],
                                      defines=["C13_NO_RAW"])
+            except vlib.BuildError:
+                # ... and without the sequence of objects that are not integers (a library that hands a position to
+                # a callback may not compile with them): the shifted index sequences still tell positions from objects
+                try:
+                    box["exe"] = ctx.cpp("harness/c13.cpp", name="c13_noraw_noobj", sanitize=False, extra=["-O0"],
+                                         defines=["C13_NO_RAW", "C13_NO_OBJ"])
+                    box["raw_err"] += "  [also built without the object-sequence family]"
+                except Exception as ex3:
+                    box["err"] = ex3
             except Exception as ex2:
                 box["err"] = ex2
         except Exception as ex:   # anything else: re-raised in the main thread
@@ -972,6 +981,10 @@ def _run(ctx, restore):
     # corpus first
     for name, c in ctx.corpus():
         try:
+            if "adapt" in c and "run" not in c:
+                probe_adapters(ctx, exe, c["data"], stats)
+                stats["by_fam"]["corpus"] = stats["by_fam"].get("corpus", 0) + 1
+                continue
             ds, case = c["data"], c["run"]
             cases = [reference_for(case), case]
             results = run_cases(ctx, exe, ds, cases)
